@@ -118,6 +118,11 @@ Dedupe(e, i, acc) ==
   ELSE IF e[i].k # "opq" /\ \E j \in 1..Len(acc) : acc[j].k # "opq" /\ Same(acc[j], e[i]) THEN Dedupe(e, i + 1, acc)
   ELSE Dedupe(e, i + 1, Append(acc, e[i]))
 
+\* hashing is not an event: an unhashable element of a set / key of a dict raises TypeError inside
+\* a plain primitive; the placement of that raise is not modelled
+RECURSIVE Unhashable(_)
+Unhashable(v) == (v.k = "seq" /\ (v.t \in {"list", "set"} \/ \E i \in 1..Len(v.e) : Unhashable(v.e[i]))) \/ v.k = "dict"
+
 RECURSIVE TargetNames(_)
 TargetNames(t) ==
   CASE t.k = "Name" -> {t.id}
@@ -131,7 +136,7 @@ SwapCmp(op) == CASE op = "lt" -> "gt" [] op = "gt" -> "lt" [] op = "le" -> "ge" 
 RECURSIVE Eval(_, _, _, _), EvalElts(_, _, _, _, _, _), Drain(_, _, _, _, _, _), Iterate(_, _, _, _, _),
           Chain(_, _, _, _, _, _, _), BoolChain(_, _, _, _, _, _), EvalKws(_, _, _, _, _, _, _),
           MergeKeys(_, _, _, _, _, _, _, _), CallNode(_, _, _, _), FinishCall(_, _, _, _, _, _, _, _),
-          ReprWalk(_, _, _, _, _, _), ReprWalkSeq(_, _, _, _, _, _), DictDisplay(_, _, _, _, _, _),
+          ReprWalk(_, _, _, _, _, _), ReprWalkSeq(_, _, _, _, _, _), ReprWalkSet(_, _, _, _, _, _), DictDisplay(_, _, _, _, _, _),
           PairsUpdate(_, _, _, _, _, _, _), CompGen(_, _, _, _, _, _), CompLoop(_, _, _, _, _, _, _, _, _),
           CondAll(_, _, _, _, _), Comp(_, _, _, _), Joined(_, _, _, _, _, _), FmtValue(_, _, _, _),
           AssignTo(_, _, _, _, _), Unpack(_, _, _, _, _), AssignSeq(_, _, _, _, _, _),
@@ -229,11 +234,23 @@ ReprWalk(val, top, st, tr, env, kind) ==
   IF ~st.ok THEN S(st, env, "")
   ELSE IF IsRec(val) THEN IF st.q THEN S(st, env, "")
                           ELSE SofR(Prim(st, tr, env, kind, "conv", IF top THEN "s" ELSE "r", <<val>>, <<>>, 0))
-  ELSE IF val.k = "seq" THEN IF val.t = "set" /\ Len(val.e) > 1 /\ ~st.q THEN S(NotMod(st, kind, "repr of a set"), env, "")
-                             ELSE ReprWalkSeq(val.e, 1, st, tr, env, kind)
+  ELSE IF val.k = "seq" THEN
+       IF val.t = "set" /\ Len(val.e) > 1 /\ ~st.q THEN
+            \* iteration order of a set is not modelled: the recorder elements' repr events in ANY order
+            IF \A j \in 1..Len(val.e) : val.e[j].k \in {"v", "c", "b", "none"}
+            THEN ReprWalkSet({j \in 1..Len(val.e) : IsRec(val.e[j])}, val.e, st, tr, env, kind)
+            ELSE S(NotMod(st, kind, "repr of a set of containers"), env, "")
+       ELSE ReprWalkSeq(val.e, 1, st, tr, env, kind)
   ELSE IF val.k = "dict" THEN ReprWalkSeq([j \in 1..(2 * Len(val.ks)) |-> IF j % 2 = 1 THEN val.ks[(j + 1) \div 2] ELSE val.vs[j \div 2]], 1, st, tr, env, kind)
   ELSE IF val.k = "slice" THEN ReprWalkSeq(val.e, 1, st, tr, env, kind)
   ELSE S(st, env, "")
+ReprWalkSet(rem, e, st, tr, env, kind) ==
+  IF rem = {} \/ ~st.ok THEN S(st, env, "")
+  ELSE LET hit == {j \in rem : NextIs(st, tr, "conv", "r", e[j])} IN
+       IF hit = {} THEN SofR(Prim(st, tr, env, kind, "conv", "r", <<e[CHOOSE j \in rem : TRUE]>>, <<>>, 0))
+       ELSE LET j == CHOOSE j \in hit : TRUE
+                r == Prim(st, tr, env, kind, "conv", "r", <<e[j]>>, <<>>, 0) IN
+            IF Stop(r) THEN SofR(r) ELSE ReprWalkSet(rem \ {j}, e, r.st, tr, env, kind)
 ReprWalkSeq(e, i, st, tr, env, kind) ==
   IF i > Len(e) \/ ~st.ok THEN S(st, env, "")
   ELSE LET r == ReprWalk(e[i], FALSE, st, tr, env, kind) IN
@@ -377,9 +394,11 @@ DictDisplay(n, i, st, tr, env, d) ==
   ELSE IF Has(st, "dict-value-first") THEN
        LET v == Eval(n.vals[i], st, tr, env) IN IF Stop(v) THEN v ELSE
        LET k == Eval(n.keys[i], v.st, tr, v.env) IN IF Stop(k) THEN k ELSE
+       IF Unhashable(k.v) THEN Ex(NotMod(k.st, "Dict", "unhashable key"), "", k.env) ELSE
        DictDisplay(n, i + 1, k.st, tr, k.env, DictPut(d, k.v, v.v, 1))
   ELSE LET k == Eval(n.keys[i], st, tr, env) IN IF Stop(k) THEN k ELSE
        LET v == Eval(n.vals[i], k.st, tr, k.env) IN IF Stop(v) THEN v ELSE
+       IF Unhashable(k.v) THEN Ex(NotMod(v.st, "Dict", "unhashable key"), "", v.env) ELSE
        DictDisplay(n, i + 1, v.st, tr, v.env, DictPut(d, k.v, v.v, 1))
 
 \* ---------------------------------------------------------------- comprehensions
@@ -423,8 +442,10 @@ CompLoop(n, gi, it, items, j, st, tr, env, acc) ==
        ELSE IF n.k = "DictComp" THEN
             LET k == Eval(n.key, c.st, tr, c.env) IN IF Stop(k) THEN L(k.st, acc, k.x, k.env) ELSE
             LET v == Eval(n.val, k.st, tr, k.env) IN IF Stop(v) THEN L(v.st, acc, v.x, v.env) ELSE
+            IF Unhashable(k.v) THEN L(NotMod(v.st, "DictComp", "unhashable key"), acc, "", v.env) ELSE
             CompLoop(n, gi, it, items, j + 1, v.st, tr, v.env, Append(acc, [k |-> k.v, v |-> v.v]))
        ELSE LET e == Eval(n.elt, c.st, tr, c.env) IN IF Stop(e) THEN L(e.st, acc, e.x, e.env) ELSE
+            IF n.k = "SetComp" /\ Unhashable(e.v) THEN L(NotMod(e.st, "SetComp", "unhashable element"), acc, "", e.env) ELSE
             CompLoop(n, gi, it, items, j + 1, e.st, tr, e.env, Append(acc, e.v))
 
 \* the loop targets live in the comprehension's own scope; walrus targets bind outside
@@ -521,6 +542,7 @@ Eval(n, st, tr, env) ==
     [] n.k \in {"List", "Tuple", "Set"} ->
          LET r == EvalElts(n.elts, 1, st, tr, env, <<>>) IN
          IF r.x # "" \/ ~r.st.ok THEN Ex(r.st, r.x, r.env)
+         ELSE IF n.k = "Set" /\ \E j \in 1..Len(r.vs) : Unhashable(r.vs[j]) THEN Ex(NotMod(r.st, "Set", "unhashable element"), "", r.env)
          ELSE Ok(r.st, CASE n.k = "List" -> SeqV("list", r.vs) [] n.k = "Tuple" -> SeqV("tuple", r.vs)
                          [] OTHER -> SeqV("set", Dedupe(r.vs, 1, <<>>)), r.env)
     [] n.k = "Dict" -> DictDisplay(n, 1, st, tr, env, EmptyDict)
